@@ -198,6 +198,90 @@ def playback_values(workdir, harness, feats, timeout):
     return sets, None
 
 
+CBMC_FLAGS = ["--no-malloc-may-fail", "--no-undefined-shift-check", "--no-signed-overflow-check", "--nan-check",
+              "--no-self-loops-to-assumptions", "--no-pointer-primitive-check", "--object-bits", "16",
+              "--sat-solver", "cadical", "--slice-formula"]
+
+
+def goto_binary(data, harness):
+    for m in (data or {}).get("harness_metadata", []):
+        if m.get("pretty_name", "").split("::")[-1] == harness:
+            g = m.get("goto_file", "")
+            if g.endswith(".symtab.out"):
+                g = g[:-len(".symtab.out")] + ".out"
+            if os.path.exists(g):
+                return g
+    return None
+
+
+def trace_values(data, harness, unwind, bad_checks, timeout, max_props=3):
+    """Counterexamples straight from CBMC: re-solve only the failing properties of the goto binary
+    Kani left behind, with --trace. Every draw of the harness is kept in the sliced formula by the
+    `keep!` assumptions in src.rs, so the any_raw return values of the trace are all draws in order."""
+    g = goto_binary(data, harness)
+    if not g:
+        return [], "goto binary of %s not found" % harness
+    base = ["cbmc"] + CBMC_FLAGS + ["--unwind", str(unwind), g]
+    try:
+        p = subprocess.run(base + ["--show-properties", "--json-ui"], stdout=subprocess.PIPE, stderr=subprocess.DEVNULL,
+                           text=True, timeout=300)
+        props = [x for x in json.loads(p.stdout) if isinstance(x, dict) and "properties" in x][0]["properties"]
+    except Exception as e:
+        return [], "cbmc --show-properties failed: %s" % e
+    want = []
+    for c in bad_checks:
+        loc = c.get("location") or {}
+        for pr in props:
+            sl = pr.get("sourceLocation", {})
+            if (pr.get("description") == c.get("description") and str(sl.get("line")) == str(loc.get("line"))
+                    and os.path.basename(sl.get("file", "")) == os.path.basename(loc.get("file", ""))
+                    and pr["name"] not in want):
+                want.append(pr["name"])
+    if not want:
+        return [], "failing checks not found among the goto binary's properties"
+    cmd = base + ["--trace", "--json-ui"]
+    for n in want[:max_props]:
+        cmd += ["--property", n]
+    tf = os.path.join(WORK, "trace-%d-%s.json" % (os.getpid(), harness))
+    try:
+        with open(tf, "w") as f:
+            subprocess.run(cmd, stdout=f, stderr=subprocess.DEVNULL, timeout=timeout)
+        out = json.load(open(tf))
+    except subprocess.TimeoutExpired:
+        return [], "cbmc trace run timed out"
+    except Exception as e:
+        return [], "cbmc trace run failed: %s" % e
+    finally:
+        if os.path.exists(tf):
+            os.unlink(tf)
+    sets = []
+    for blk in out:
+        if not (isinstance(blk, dict) and "result" in blk):
+            continue
+        for r in blk["result"]:
+            if r.get("status") != "FAILURE" or "trace" not in r:
+                continue
+            vals = []
+            for st in r["trace"]:
+                if st.get("stepType") != "assignment":
+                    continue
+                if not str(st.get("lhs", "")).startswith("goto_symex$$return_value"):
+                    continue
+                if not str((st.get("sourceLocation") or {}).get("function", "")).startswith("kani::any_raw_"):
+                    continue
+                v = st.get("value") or {}
+                b, w = v.get("binary"), v.get("width")
+                if b is None or not w or w % 8:
+                    continue
+                n = int(b, 2)
+                vals.append([(n >> (8 * i)) & 0xFF for i in range(w // 8)])
+            if vals and vals not in sets:
+                sets.append(vals)
+    if not sets:
+        return [], "no failing trace in cbmc output"
+    return sets, None
+
+
 # --------------------------------------------------------------------------
 # result classification
 # --------------------------------------------------------------------------
@@ -461,13 +545,23 @@ def do_check(pid, tier, seed, jobs, keep):
     if violations:
         os.makedirs(REPLAYS, exist_ok=True)
         exe_rel = native_build(workdir, release=True)
+        # cheapest harnesses first; counterexample traces of the first MAX_REPLAYS are extracted in parallel
+        violations.sort(key=lambda hb: (results.get(hb[0], {}).get("duration_ms") or 0))
+        import concurrent.futures
+        head = violations[:MAX_REPLAYS]
+        with concurrent.futures.ThreadPoolExecutor(max_workers=MAX_REPLAYS) as ex:
+            futs = {h: ex.submit(trace_values, data, h, unwind[h], bad, per_to) for h, bad in head}
+        traced = {h: f.result() for h, f in futs.items()}
         for idx, (h, bad) in enumerate(violations):
             descs = sorted({"%s @ %s" % (c["description"], short_loc(c)) for c in bad})
             log("harness %s: solver reports %d failing check(s): %s" % (h, len(bad), "; ".join(descs)[:600]))
-            if len(confirmed) >= MAX_REPLAYS:
-                log("  (not replayed: %d violations already reproduced in this run)" % len(confirmed))
+            if h not in traced:
+                log("  (not replayed: only the %d cheapest failing harnesses of a run are replayed)" % MAX_REPLAYS)
                 continue
-            sets, err = playback_values(workdir, h, feats, per_to)
+            sets, err = traced[h]
+            if not sets:
+                log("  (cbmc trace extraction failed: %s; falling back to Kani concrete playback)" % err)
+                sets, err = playback_values(workdir, h, feats, per_to)
             rec = {"property": pid, "harness": h, "tier": tier, "seed": seed, "failing_checks": descs,
                    "features": feats, "values": None, "owns_panics": own[h]}
             path = os.path.join(REPLAYS, "%s-%s.json" % (pid, h))
